@@ -711,6 +711,10 @@ class Evaluator:
                 return Cond("true" if n["bool"] else "false")
             if "str" in n:
                 return Sym("str:" + n["str"])
+            if "bytes" in n:
+                # byte-string literal (also the lowered template of format_args!): its printable text, so that a
+                # message value shows the literal pieces (error code, wording) it is built from
+                return Sym("bytes:" + "".join(ch if 32 <= ord(ch) < 127 and ch not in "()," else "~" for ch in n["bytes"]))
             return Sym("lit")
         if k == "NamedConst":
             if "int" in n:
